@@ -140,7 +140,7 @@ def instance_fails(kind, desc, sig):
 
 
 def run(ctx):
-    ctx.prove()
+    ctx.prove(props=["C04", "C04_forms"])
     rng = ctx.rng
     count = 300 if ctx.quick else 6000
     max_n = 14 if ctx.quick else 18
@@ -228,6 +228,7 @@ def run(ctx):
                            instance_data={k: str(v) for k, v in s.items()}, model_S_and_coeff_sum=model[-1500:]), False)
     if ctx.tier == "thorough":
         ctx.coqchk("VQP.C04")
+        ctx.coqchk("VQP.C04_forms")
 
 
 def replay(ctx, data):
